@@ -111,7 +111,16 @@ pub fn screen_of(mode: u8, e: &SemEvent) -> u8 {
     }
 }
 
+/// A concrete operation, recorded so that another process can repeat the history
+#[derive(Clone, Debug)]
+pub enum COp {
+    Store(Rc<Ev>),
+    Remove(Id32),
+    Vanish(Id32),
+}
+
 pub struct Eng<'r> {
+    pub ops: Vec<COp>,
     pub rep: &'r mut Report,
     pub prop: &'static str,
     pub cmd: String,
@@ -141,6 +150,9 @@ pub struct Eng<'r> {
     pub rebuilds: u64,
     pub last_map_len: u64,
     pub sigbits: u64,
+    /// report every disagreement under the property being checked, with this signature prefix
+    /// (used by the crash and concurrency monitors, which re-use the sequential monitors)
+    pub attribute_all: Option<String>,
 }
 
 impl<'r> Eng<'r> {
@@ -149,6 +161,7 @@ impl<'r> Eng<'r> {
         let _ = std::fs::remove_dir_all(&dir);
         std::fs::create_dir_all(&dir).unwrap();
         let mut e = Eng {
+            ops: vec![],
             rep,
             prop,
             cmd: cmd.to_string(),
@@ -178,11 +191,59 @@ impl<'r> Eng<'r> {
             rebuilds: 0,
             last_map_len: 0,
             sigbits: 0,
+            attribute_all: None,
         };
         for t in e.tables.clone() {
             let _ = e.model.x.insert(t.to_string(), BTreeMap::new());
         }
         e.open_store("open");
+        e
+    }
+
+    /// Attach to an existing store directory with a given model (used after a crash)
+    #[allow(clippy::too_many_arguments)]
+    pub fn attach(rep: &'r mut Report, prop: &'static str, cmd: &str, seed: u64, index: u64, flags: Flags, dir: PathBuf, model: Model, events: &[Rc<Ev>], offsets: Vec<(u32, u64, Rc<Ev>)>) -> Eng<'r> {
+        let mut e = Eng {
+            ops: vec![],
+            rep,
+            prop,
+            cmd: cmd.to_string(),
+            seed,
+            index,
+            dir,
+            store: None,
+            tables: vec![],
+            model,
+            ids: BTreeSet::new(),
+            addrs: BTreeSet::new(),
+            all: vec![],
+            by_id: HashMap::new(),
+            offsets: vec![],
+            offset_set: BTreeSet::new(),
+            generation: 0,
+            removed: BTreeSet::new(),
+            foreign_named_ids: BTreeSet::new(),
+            foreign_named_addrs: BTreeSet::new(),
+            marker_seen: BTreeMap::new(),
+            log: vec![],
+            aborted: false,
+            flags,
+            steps: 0,
+            growths: 0,
+            reopens: 0,
+            rebuilds: 0,
+            last_map_len: 0,
+            sigbits: 0,
+            attribute_all: None,
+        };
+        for ev in events {
+            e.register(ev);
+        }
+        for (g, o, ev) in offsets {
+            let _ = e.offset_set.insert((g, o));
+            e.offsets.push((g, o, ev));
+        }
+        e.open_store("open-after-crash");
         e
     }
 
@@ -207,6 +268,12 @@ impl<'r> Eng<'r> {
 
     /// Record a disagreement. Reported as a violation only when it concerns the property under check.
     pub fn flag(&mut self, props: &[&'static str], signature: &str, detail: &str) {
+        if let Some(prefix) = self.attribute_all.clone() {
+            let d = format!("{detail}\n  history (last steps): {}", self.log.iter().rev().take(10).rev().cloned().collect::<Vec<_>>().join(" | "));
+            let rp = self.replay_payload();
+            self.rep.finding(&format!("{prefix}{signature}"), &d, rp);
+            return;
+        }
         if props.contains(&self.prop) {
             let d = format!("{detail}\n  history (last steps): {}", self.log.iter().rev().take(14).rev().cloned().collect::<Vec<_>>().join(" | "));
             let rp = self.replay_payload();
@@ -329,6 +396,7 @@ impl<'r> Eng<'r> {
             return None;
         }
         self.register(ev);
+        self.ops.push(COp::Store(ev.clone()));
         self.steps += 1;
         let before = if self.flags.snapshot_failed_stores { Some(self.snap()) } else { None };
         let guard_before = if self.flags.foreign_delete_guard && ev.sem.kind == 5 { Some(self.victim_view(&ev.sem.pubkey)) } else { None };
@@ -423,6 +491,7 @@ impl<'r> Eng<'r> {
             return;
         }
         self.steps += 1;
+        self.ops.push(COp::Remove(*id));
         let _ = self.ids.insert(*id);
         let store = self.store.as_ref().unwrap();
         let r = catch(|| store.remove_event(Id::from_bytes(*id)));
@@ -458,6 +527,7 @@ impl<'r> Eng<'r> {
             return;
         }
         self.steps += 1;
+        self.ops.push(COp::Vanish(*pk));
         // vanish takes an event (the request); only its pubkey is used
         let req = SemEvent { id: [0xEE; 32], pubkey: *pk, sig: [0; 64], kind: 62, created_at: 1, tags: vec![], content: String::new() };
         let o = req.to_owned().unwrap();
@@ -713,130 +783,22 @@ impl<'r> Eng<'r> {
 
     /// Compare ids, markers, holders, index counts and tables with the model
     pub fn verify_state(&mut self, op: OpKind) {
-        let store = match self.store.as_ref() {
-            Some(s) => s,
-            None => return,
-        };
-        let actor: Option<Id32> = None;
-        let _ = actor;
-        let mut divs: Vec<(Aspect, String, bool)> = vec![];
-        for id in self.ids.iter() {
-            let pid = Id::from_bytes(*id);
-            let want = self.model.r.get(id);
-            let foreign = false;
-            match catch(|| store.has_event(pid)) {
-                Ok(Ok(h)) => {
-                    if h != want.is_some() {
-                        divs.push((Aspect::Retr, format!("has_event({}) = {h}, model says {}", hex(&id[..3]), want.is_some()), foreign));
-                    }
-                }
-                other => divs.push((Aspect::Retr, format!("has_event({}) failed: {:?}", hex(&id[..3]), other.map(|r| r.map_err(|e| format!("{e}"))).map_err(|p| p.message)), foreign)),
-            }
-            match catch(|| store.get_event_by_id(pid).map(|o| o.map(|e| e.as_bytes().to_vec()))) {
-                Ok(Ok(got)) => match (got, want) {
-                    (Some(b), Some(w)) => {
-                        if b != w.bytes {
-                            divs.push((Aspect::Bytes, format!("get_event_by_id({}) returns different bytes", hex(&id[..3])), foreign));
-                        }
-                    }
-                    (None, None) => {}
-                    (g, w) => divs.push((Aspect::Retr, format!("get_event_by_id({}) is_some={}, model says {}", hex(&id[..3]), g.is_some(), w.is_some()), foreign)),
-                },
-                other => divs.push((Aspect::Retr, format!("get_event_by_id({}) failed: {:?}", hex(&id[..3]), other.map(|r| r.map(|_| ()).map_err(|e| format!("{e}"))).map_err(|p| p.message)), foreign)),
-            }
-            match catch(|| store.event_is_deleted(pid)) {
-                Ok(Ok(d)) => {
-                    if d != self.model.d.contains(id) {
-                        divs.push((Aspect::Marker, format!("event_is_deleted({}) = {d}, model says {}", hex(&id[..3]), !d), foreign));
-                    }
-                }
-                _ => divs.push((Aspect::Marker, "event_is_deleted failed".into(), foreign)),
-            }
-        }
-        for a in self.addrs.iter() {
-            if a.d.len() > 400 {
-                continue; // beyond the LMDB key size: lookups of such markers error out (exercised under C12)
-            }
-            let pa = to_addr(a);
-            match catch(|| store.naddr_is_deleted_asof(&pa).map(|o| o.map(|t| t.as_u64()))) {
-                Ok(Ok(t)) => {
-                    let want = self.model.a.get(a).copied();
-                    if t != want {
-                        divs.push((Aspect::Marker, format!("naddr_is_deleted_asof({}) = {t:?}, model says {want:?}", a.short()), false));
-                    }
-                }
-                Ok(Err(e)) => divs.push((Aspect::Marker, format!("naddr_is_deleted_asof({}) error {e}", a.short()), false)),
-                Err(p) => divs.push((Aspect::Marker, format!("naddr_is_deleted_asof panic {}", p.message), false)),
-            }
-            let want = self.model.holder(a).map(|e| e.sem.id);
-            let got = if is_replaceable(a.kind) {
-                Some(catch(|| store.find_replaceable_event(pa.author, pa.kind).map(|o| o.map(|e| id32(e.id())))))
-            } else if is_param(a.kind) {
-                Some(catch(|| store.find_parameterized_replaceable_event(&pa).map(|o| o.map(|e| id32(e.id())))))
-            } else {
-                None
-            };
-            if let Some(g) = got {
-                match g {
-                    Ok(Ok(g)) => {
-                        if g != want {
-                            divs.push((Aspect::Holder, format!("holder of {} is {:?}, model says {:?}", a.short(), g.map(|i| hex(&i[..3])), want.map(|i| hex(&i[..3]))), false));
-                        }
-                    }
-                    Ok(Err(e)) => divs.push((Aspect::Holder, format!("find at {} error {e}", a.short()), false)),
-                    Err(p) => divs.push((Aspect::Holder, format!("find at {} panic {}", a.short(), p.message), false)),
-                }
-            }
-        }
-        match catch(|| store.stats()) {
-            Ok(Ok(st)) => {
-                let n = self.model.r.len() as u64;
-                let ix = &st.index_stats;
-                for (name, v) in [("i", ix.i_index_entries), ("ci", ix.ci_index_entries), ("ac", ix.ac_index_entries), ("akc", ix.akc_index_entries)] {
-                    if v != n {
-                        divs.push((Aspect::Stats, format!("{name}_index_entries = {v}, retrievable events = {n}"), false));
-                    }
-                }
-                if n == 0 {
-                    for (name, v) in [("tc", ix.tc_index_entries), ("atc", ix.atc_index_entries), ("ktc", ix.ktc_index_entries)] {
-                        if v != 0 {
-                            divs.push((Aspect::Stats, format!("{name}_index_entries = {v} although nothing is retrievable"), false));
-                        }
-                    }
-                }
-            }
-            _ => divs.push((Aspect::Stats, "stats() failed".into(), false)),
-        }
-        for name in self.tables.iter() {
-            let got = catch(|| -> Result<BTreeMap<Vec<u8>, Vec<u8>>, String> {
-                let db = store.extra_table(name).ok_or("missing table")?;
-                let txn = store.read_txn().map_err(|e| format!("{e}"))?;
-                let mut m = BTreeMap::new();
-                for it in db.iter(&txn).map_err(|e| format!("{e}"))? {
-                    let (k, v) = it.map_err(|e| format!("{e}"))?;
-                    let _ = m.insert(k.to_vec(), v.to_vec());
-                }
-                Ok(m)
-            });
-            match got {
-                Ok(Ok(m)) => {
-                    if Some(&m) != self.model.x.get(*name) {
-                        divs.push((Aspect::Table, format!("extra table {name} differs: {} rows vs {}", m.len(), self.model.x.get(*name).map(|x| x.len()).unwrap_or(0)), false));
-                    }
-                }
-                _ => divs.push((Aspect::Table, format!("extra table {name} unreadable"), false)),
-            }
-        }
+        let divs = self.collect_divergences();
         self.rep.count("state_verifications");
         if !divs.is_empty() {
-            // for deletion requests: is the affected event by another author than the requester?
-            let actor = self.log.last().cloned().unwrap_or_default();
-            let _ = actor;
             let (aspect, text, _) = divs[0].clone();
             let foreign = if op == OpKind::StoreOkDel { self.last_divergence_is_foreign(&text) } else { false };
             let props = Self::props_for(op, aspect, foreign);
             self.flag(&props, &format!("state-diverges-from-model:{:?}:{:?}", op, aspect), &format!("{} (and {} more)", text, divs.len() - 1));
             self.abort("state-diverged");
+        }
+    }
+
+    /// Every disagreement between the store's read APIs and the model
+    pub fn collect_divergences(&self) -> Vec<(Aspect, String, bool)> {
+        match self.store.as_ref() {
+            Some(s) => divergences(s, &self.model, &self.ids, &self.addrs, &self.tables),
+            None => vec![],
         }
     }
 
@@ -1295,6 +1257,120 @@ impl<'r> Eng<'r> {
         }
         m
     }
+}
+
+
+/// Every disagreement between a store's read APIs and a model, over the given universe
+pub fn divergences(store: &Store, model: &Model, ids: &BTreeSet<Id32>, addrs: &BTreeSet<AddrKey>, tables: &[&'static str]) -> Vec<(Aspect, String, bool)> {
+    let mut divs: Vec<(Aspect, String, bool)> = vec![];
+    for id in ids.iter() {
+        let pid = Id::from_bytes(*id);
+        let want = model.r.get(id);
+        let foreign = false;
+        match catch(|| store.has_event(pid)) {
+            Ok(Ok(h)) => {
+                if h != want.is_some() {
+                    divs.push((Aspect::Retr, format!("has_event({}) = {h}, model says {}", hex(&id[..3]), want.is_some()), foreign));
+                }
+            }
+            other => divs.push((Aspect::Retr, format!("has_event({}) failed: {:?}", hex(&id[..3]), other.map(|r| r.map_err(|e| format!("{e}"))).map_err(|p| p.message)), foreign)),
+        }
+        match catch(|| store.get_event_by_id(pid).map(|o| o.map(|e| e.as_bytes().to_vec()))) {
+            Ok(Ok(got)) => match (got, want) {
+                (Some(b), Some(w)) => {
+                    if b != w.bytes {
+                        divs.push((Aspect::Bytes, format!("get_event_by_id({}) returns different bytes", hex(&id[..3])), foreign));
+                    }
+                }
+                (None, None) => {}
+                (g, w) => divs.push((Aspect::Retr, format!("get_event_by_id({}) is_some={}, model says {}", hex(&id[..3]), g.is_some(), w.is_some()), foreign)),
+            },
+            other => divs.push((Aspect::Retr, format!("get_event_by_id({}) failed: {:?}", hex(&id[..3]), other.map(|r| r.map(|_| ()).map_err(|e| format!("{e}"))).map_err(|p| p.message)), foreign)),
+        }
+        match catch(|| store.event_is_deleted(pid)) {
+            Ok(Ok(d)) => {
+                if d != model.d.contains(id) {
+                    divs.push((Aspect::Marker, format!("event_is_deleted({}) = {d}, model says {}", hex(&id[..3]), !d), foreign));
+                }
+            }
+            _ => divs.push((Aspect::Marker, "event_is_deleted failed".into(), foreign)),
+        }
+    }
+    for a in addrs.iter() {
+        if a.d.len() > 400 {
+            continue; // beyond the LMDB key size: lookups of such markers error out (exercised under C12)
+        }
+        let pa = to_addr(a);
+        match catch(|| store.naddr_is_deleted_asof(&pa).map(|o| o.map(|t| t.as_u64()))) {
+            Ok(Ok(t)) => {
+                let want = model.a.get(a).copied();
+                if t != want {
+                    divs.push((Aspect::Marker, format!("naddr_is_deleted_asof({}) = {t:?}, model says {want:?}", a.short()), false));
+                }
+            }
+            Ok(Err(e)) => divs.push((Aspect::Marker, format!("naddr_is_deleted_asof({}) error {e}", a.short()), false)),
+            Err(p) => divs.push((Aspect::Marker, format!("naddr_is_deleted_asof panic {}", p.message), false)),
+        }
+        let want = model.holder(a).map(|e| e.sem.id);
+        let got = if is_replaceable(a.kind) {
+            Some(catch(|| store.find_replaceable_event(pa.author, pa.kind).map(|o| o.map(|e| id32(e.id())))))
+        } else if is_param(a.kind) {
+            Some(catch(|| store.find_parameterized_replaceable_event(&pa).map(|o| o.map(|e| id32(e.id())))))
+        } else {
+            None
+        };
+        if let Some(g) = got {
+            match g {
+                Ok(Ok(g)) => {
+                    if g != want {
+                        divs.push((Aspect::Holder, format!("holder of {} is {:?}, model says {:?}", a.short(), g.map(|i| hex(&i[..3])), want.map(|i| hex(&i[..3]))), false));
+                    }
+                }
+                Ok(Err(e)) => divs.push((Aspect::Holder, format!("find at {} error {e}", a.short()), false)),
+                Err(p) => divs.push((Aspect::Holder, format!("find at {} panic {}", a.short(), p.message), false)),
+            }
+        }
+    }
+    match catch(|| store.stats()) {
+        Ok(Ok(st)) => {
+            let n = model.r.len() as u64;
+            let ix = &st.index_stats;
+            for (name, v) in [("i", ix.i_index_entries), ("ci", ix.ci_index_entries), ("ac", ix.ac_index_entries), ("akc", ix.akc_index_entries)] {
+                if v != n {
+                    divs.push((Aspect::Stats, format!("{name}_index_entries = {v}, retrievable events = {n}"), false));
+                }
+            }
+            if n == 0 {
+                for (name, v) in [("tc", ix.tc_index_entries), ("atc", ix.atc_index_entries), ("ktc", ix.ktc_index_entries)] {
+                    if v != 0 {
+                        divs.push((Aspect::Stats, format!("{name}_index_entries = {v} although nothing is retrievable"), false));
+                    }
+                }
+            }
+        }
+        _ => divs.push((Aspect::Stats, "stats() failed".into(), false)),
+    }
+    for name in tables.iter() {
+        let got = catch(|| -> Result<BTreeMap<Vec<u8>, Vec<u8>>, String> {
+            let db = store.extra_table(name).ok_or("missing table")?;
+            let txn = store.read_txn().map_err(|e| format!("{e}"))?;
+            let mut m = BTreeMap::new();
+            for it in db.iter(&txn).map_err(|e| format!("{e}"))? {
+                let (k, v) = it.map_err(|e| format!("{e}"))?;
+                let _ = m.insert(k.to_vec(), v.to_vec());
+            }
+            Ok(m)
+        });
+        match got {
+            Ok(Ok(m)) => {
+                if Some(&m) != model.x.get(*name) {
+                    divs.push((Aspect::Table, format!("extra table {name} differs: {} rows vs {}", m.len(), model.x.get(*name).map(|x| x.len()).unwrap_or(0)), false));
+                }
+            }
+            _ => divs.push((Aspect::Table, format!("extra table {name} unreadable"), false)),
+        }
+    }
+    divs
 }
 
 pub fn snap_diff(a: &BTreeMap<String, String>, b: &BTreeMap<String, String>) -> Vec<(String, String, String)> {
